@@ -1,10 +1,82 @@
 /- driver ops for property C07 (model side of the correspondence) -/
 import Rsa.Core.Wire
+import Rsa.Core.Ceiling
 
-open Lean Rsa.Wire
+open Lean Rsa.Wire Rsa.Ceiling
 
 namespace Rsa.Drv.C07
 
-def handle : Handler := fun _op _j => none
+def listFn (l : List Nat) : Nat → Nat := fun i => l.getD i 0
+
+def asMethod (j : Json) : R Method := do
+  let s ← asStr j
+  match Method.ofString? s with
+  | some m => pure m
+  | none => throw s!"unknown method {s}"
+
+def ofPair (p : Float × Float) : Json := obj [("lower", ofFloat p.1), ("upper", ofFloat p.2)]
+
+def readObj (j : Json) (nR : Nat) : R Rsa.Folds.Obj := do
+  let n ← fld j "n" >>= asNat
+  let rdesc ← fld j "rdesc" >>= asList asNat
+  let pdesc ← asList asNat (fldD j "pdesc" (ofList ofNat (List.range n)))
+  pure { nR := nR, nC := n, rdesc := listFn rdesc, pdesc := listFn pdesc }
+
+/-- `boot_noise_ceiling(rdms, method, rdm_descriptor)` and `pool_rdm(rdms, method)` -/
+def bootOp (j : Json) : R Json := do
+  let m ← fld j "method" >>= asMethod
+  let rows ← fld j "rows" >>= asList (asList (asOpt asFloat))
+  let o ← readObj j rows.length
+  let pool := poolO m rows
+  match bootNoiseCeilingO m o rows with
+  | some p => pure (obj [("lower", ofFloat p.1), ("upper", ofFloat p.2),
+      ("pool", ofList (ofOpt ofFloat) pool), ("folds", ofNat (looFolds o).length)])
+  | none => pure (obj [("exc", Json.str "ValueError"), ("pool", ofList (ofOpt ofFloat) pool)])
+
+def asVals (j : Json) : R (Option (List Nat)) := asOpt (asList asNat) j
+
+/-- one `(ceil_set[i], test_set[i])`: descriptor values of the training / test RDMs
+    (`subsample`) and of the test conditions (`subset_pattern`) -/
+def readFold (o : Rsa.Folds.Obj) (j : Json) : R CvFold := do
+  if !(fldD j "test_rows" Json.null).isNull then
+    -- explicit positions, read back from the objects a real generator returned
+    let cr ← fld j "ceil_rows" >>= asList asNat
+    let cc ← fld j "ceil_conds" >>= asList asNat
+    let tr ← fld j "test_rows" >>= asList asNat
+    let tc ← fld j "test_conds" >>= asList asNat
+    let pidx ← fld j "pidx" >>= asList asNat
+    return { ceil := { rows := cr, conds := cc, pidx := pidx },
+             test := { rows := tr, conds := tc, pidx := pidx } }
+  let rtrain ← asVals (fldD j "rtrain" Json.null)
+  let rtest ← asVals (fldD j "rtest" Json.null)
+  let ptest ← asVals (fldD j "ptest" Json.null)
+  let sub ← asBool (fldD j "by_subset" (Json.bool false))
+  pure { ceil := Rsa.Folds.mkPart o sub rtrain ptest, test := Rsa.Folds.mkPart o sub rtest ptest }
+
+/-- `cv_noise_ceiling(rdms, ceil_set, test_set, method, pattern_descriptor)` -/
+def cvOp (j : Json) : R Json := do
+  let m ← fld j "method" >>= asMethod
+  let rows ← fld j "rows" >>= asList (asList (asOpt asFloat))
+  let o ← readObj j rows.length
+  let folds ← fld j "folds" >>= asList (readFold o)
+  match cvNoiseCeilingO m o rows folds with
+  | some p => pure (ofPair p)
+  | none => pure (obj [("exc", Json.str "ValueError")])
+
+/-- the score `boot_noise_ceiling`'s loop gives to a candidate RDM -/
+def scoreOp (j : Json) : R Json := do
+  let m ← fld j "method" >>= asMethod
+  let rows ← fld j "rows" >>= asList (asList (asOpt asFloat))
+  let cand ← fld j "cand" >>= asList (asOpt asFloat)
+  let o ← readObj j rows.length
+  let V : List (List Float) := vFor m o.nC (maskOf (rows.headD []))
+  pure (ofFloat (candidateScore (simO m V) rows o cand))
+
+def handle : Handler := fun op j =>
+  match op with
+  | "c07.boot" => some (bootOp j)
+  | "c07.cv" => some (cvOp j)
+  | "c07.score" => some (scoreOp j)
+  | _ => none
 
 end Rsa.Drv.C07
